@@ -97,8 +97,13 @@ fn harvest_faults(ctx: &mut Ctx, sh: &DiskShared) {
 // ------------------------------------------------------------ word write
 
 fn word_write<W: SimWord>(s: &S11, ops: &[Op11], ctx: &mut Ctx) {
-    let disk = SimDisk::new(Vec::new(), &s.plan);
+    // the sink may already hold `start_words` words and be positioned after them when the
+    // adapter is created over it (appending to an existing stream)
+    let initial: Vec<u8> = (0..s.plan.start_words * W::NBYTES).map(|k| 0x5A ^ (k as u8)).collect();
+    let mut disk = SimDisk::new(initial.clone(), &s.plan);
+    disk.pre_position(initial.len() as u64);
     let sh = disk.handle();
+    ctx.probe_if(!initial.is_empty(), "c11.writer_created_at_nonzero_offset");
     match s.wrap {
         Wrap::Direct => {
             let mut a = WordAdapter::<W, _>::new(disk);
@@ -122,11 +127,11 @@ fn word_write_run<W: SimWord, A: WordWrite<Word = W, Error = std::io::Error> + W
     buffered: bool,
 ) {
     let nb = W::NBYTES;
-    // model device
-    let mut dev: Vec<u8> = Vec::new();
+    // model device (with whatever the sink held when the adapter was created over it)
+    let mut dev: Vec<u8> = (0..s.plan.start_words * nb).map(|k| 0x5A ^ (k as u8)).collect();
     // known[i]: the model knows byte i (false inside a word whose write failed part-way)
-    let mut known: Vec<bool> = Vec::new();
-    let mut pos: usize = 0;
+    let mut known: Vec<bool> = vec![true; dev.len()];
+    let mut pos: usize = dev.len();
     let mut flushed_ok = true; // everything written so far has been flushed
     let class = fault_class(&s.plan);
     // after a failed write (direct wrap) the position is unknown until a successful
@@ -1053,7 +1058,10 @@ impl Family for C11 {
             (Mode::BitRead { .. }, Wd::U128) => Wd::U64,
             (_, w) => w,
         };
-        let plan = gen_plan(rng, index, word.bytes(), nops + 2);
+        let mut plan = gen_plan(rng, index, word.bytes(), nops + 2);
+        if matches!(mode, Mode::WordWrite { .. }) && rng.chance(1, 5) {
+            plan.start_words = rng.usize_range(1, 3);
+        }
         S11 { word, wrap, plan, mode }
     }
 
@@ -1143,6 +1151,7 @@ impl Family for C11 {
 
     fn required_probes(_t: Tier) -> Vec<&'static str> {
         vec![
+            "c11.writer_created_at_nonzero_offset",
             "c11.word_pos_after_write_error",
             "c11.word_pos_after_read_error",
             "c11.word_pos_above_2^32",
